@@ -398,7 +398,60 @@ fn run_sized_literals(n: usize, ctx: &mut CaseCtx) -> Verdict {
 /// short/long family in front of it names a label far behind). The value that counts is the final one.
 ///     lag end / here: / t after(K) / end:        with #fn after(n) => n + here
 /// (the first pass takes the long form of `lag`: here = 3; the layout settles with the short form: here = 2)
+/// v3: the same idea for a data directive, in a program that needs FOUR passes: the element's value is the same in the
+/// second and third pass and moves in the fourth (the second `lag` shrinks in pass 2, which lets the first one shrink
+/// in pass 3, which moves the label):
+///     lag far / after_first: / #d8 K - after_first / lag near / near: / #res 249 / far:
+fn run_moving_data(t: &mut Tape, ctx: &mut CaseCtx) -> Verdict {
+    let n = 8usize;
+    let bs = boundaries(n);
+    let v = t.pick(&bs).clone() + BigInt::from(t.range(-2, 2));
+    // the label ends at 2 (3 in the passes before the last): value = K - after_first
+    let k = &v + BigInt::from(2);
+    let ktext = if k.is_negative() { format!("(0 - {})", -&k) } else { k.to_string() };
+    let src = format!(
+        "#ruledef\n{{\n    lag {{p}} => {{ assert(p < 0x100), 0x10 @ p`8 }}\n    lag {{p}} => 0x20 @ p`16\n}}\nlag far\nafter_first:\n#d8 {} - after_first\nlag near\nnear:\n#res 249\nfar:\n",
+        ktext
+    );
+    ctx.nontrivial = true;
+    ctx.set_hash_str(&src);
+    ctx.label("moving-value:data-element-four-passes");
+    ctx.render(|| json!({"source": src, "final_value": v.to_string()}));
+    let inside = in_range(Kind::D, n, &v);
+    ctx.evals += 1;
+    let out = sut::assemble_src(&src, &Opts::default());
+    let fail = |c: &str, d: String, ctx: &mut CaseCtx| {
+        ctx.want_render = true;
+        ctx.render(|| json!({"source": src, "final_value": v.to_string()}));
+        Verdict::fail(format!("dN|moving-value|{}", c), d)
+    };
+    match (&out, inside) {
+        (AsmOutcome::Panic(p), _) => fail(&format!("panic {}", sut::panic_site(p)), p.clone(), ctx),
+        (AsmOutcome::Ok(ok), true) => {
+            // lag far (short, 16 bits) + the element + lag near (16 bits)
+            if ok.bits.len() < 40 {
+                return fail("output-length", format!("{} bits", ok.bits.len()), ctx);
+            }
+            let want = mod_pow2(&v, n);
+            let mut got = BigInt::zero();
+            for b in 0..n {
+                got = got * 2 + BigInt::from(ok.bits[16 + b] as u8);
+            }
+            if got != want {
+                return fail("wrong-bits", format!("`#d8 {} - after_first` with after_first = 2 is {}: emitted {:#x}, expected {:#x}", ktext, v, got, want), ctx);
+            }
+            Verdict::Pass
+        }
+        (AsmOutcome::Ok(ok), false) => fail("out-of-range-accepted", format!("`#d8 {} - after_first` with after_first = 2 is {}, outside 8 bits: accepted, output {}", ktext, v, sut::bits_hex(&ok.bits[..ok.bits.len().min(48)])), ctx),
+        (_, true) => fail("in-range-rejected", format!("`#d8 {} - after_first` with after_first = 2 is {}, inside 8 bits: {}", ktext, v, out.brief()), ctx),
+        (_, false) => Verdict::Pass,
+    }
+}
+
 fn run_moving_value(t: &mut Tape, ctx: &mut CaseCtx) -> Verdict {
+    if crate::engine::gen_version() >= 3 && t.chance(1, 3) {
+        return run_moving_data(t, ctx);
+    }
     let kind = *t.pick(&[Kind::U, Kind::S, Kind::I]);
     let n = *t.pick(&[8usize, 16, 24]);
     let bs = boundaries(n);
